@@ -167,6 +167,27 @@ CHECKS = {
             "the oracle sound where the documentation leaves the granularity open.",
             "Graphs and DFS in vchecks/c06.py. Unsigned signals only in cycle designs.",
             "DESIGN.md §4 C06"),
+    "C08": ("exploration",
+            "metamorphic testing over injected scheduler permutations (generated designs, clocks, user processes and testbench "
+            "scripts executed under K orders of the simulator's process/pending/trigger sets) + integer-femtosecond timeline "
+            "model + reference-interpreter differential for settle/sample semantics + circuit/process replacement",
+            "The order in which ready processes run is normally an accident of the allocator; the harness replaces the "
+            "simulator's sets by an ordered subclass and replays each generated simulation under insertion, reversed, "
+            "rotating and per-iteration shuffled orders, demanding identical observation logs and final state. Exact wake-up "
+            "times (phases, half-periods, delays), pre-edge sampling across coincident domains, ctx.get-after-ctx.set "
+            "settling, testbench add-order and the guide's process replacements are checked against models.",
+            "vlib/simorder.py rebinding of `set` (checked at run time); timeline model and scripts in vchecks/c08.py; "
+            "delays never expire on a toggle instant.",
+            "DESIGN.md §4 C08"),
+    "C11": ("exploration",
+            "Hypothesis-generated memory configurations and port/clock/row-access event sequences, differential against an "
+            "array-of-rows model with per-bit unspecified masks",
+            "All row shapes, depths (0, 1, non-powers of two), port sets, transparency sets and granularities are generated "
+            "with collision-biased addresses; every read port and every row is compared with the model after every event, "
+            "including coincident edges of two domains and direct row access from the testbench.",
+            "Model in vchecks/c11.py; reset-less domains; simulator process order pinned (vlib/simorder.py). The RTLIL side "
+            "of the property is exercised through C04's evaluator.",
+            "DESIGN.md §4 C11"),
 }
 
 TITLES = {}
